@@ -394,3 +394,39 @@ class Locals:
 
     def text(self, expr, depth=6):
         return norm_text(ast.fix_missing_locations(self.expand(expr, depth)))
+
+
+# --------------------------------------------------------------------------
+# syntax-directed must-pass-through: does every normally-completing path through
+# a statement list execute a statement satisfying `hit`?
+# --------------------------------------------------------------------------
+
+
+def must_pass(stmts, hit, transparent=lambda test: False):
+    """True when every path through `stmts` that completes normally (no raise)
+    executes a statement for which hit(stmt) is true.  `transparent(test)` names
+    the if-conditions that are part of the rule's precondition (the rule is only
+    stated for executions where they hold): such an `if` counts as always taken."""
+    for st in stmts:
+        if hit(st):
+            return True
+        if isinstance(st, ast.Raise):
+            return True  # this path does not complete normally
+        if isinstance(st, (ast.Return, ast.Break, ast.Continue)):
+            return False
+        if isinstance(st, ast.If):
+            if transparent(st.test):
+                if must_pass(st.body, hit, transparent):
+                    return True
+            elif must_pass(st.body, hit, transparent) and must_pass(st.orelse, hit, transparent):
+                return True
+        elif isinstance(st, (ast.With, ast.AsyncWith)):
+            if must_pass(st.body, hit, transparent):
+                return True
+        elif isinstance(st, ast.Try):
+            if st.finalbody and must_pass(st.finalbody, hit, transparent):
+                return True
+            if must_pass(st.body, hit, transparent) and all(must_pass(h.body, hit, transparent) for h in st.handlers):
+                return True
+        # loops may run zero times: their bodies never establish the obligation
+    return False
